@@ -102,14 +102,14 @@ class OneThreadLock:
 
 
 class Bench:
-    def __init__(self, n_peers=1, apps=((4, "auth"),), app_peers=None, realms=None, persistent=False, with_ips=True, default_peers=(), stats=False):
+    def __init__(self, n_peers=1, apps=((4, "auth"),), app_peers=None, realms=None, persistent=False, with_ips=True, default_peers=(), stats=False, peer_realms=None):
         cut_statistics(not stats)
         self.node = Node(NODE_HOST, REALM, ip_addresses=["10.0.0.1"], tcp_port=3868, vendor_ids=[10415])
         if hasattr(self.node, "_busy_lock"):
             self.node._busy_lock = OneThreadLock()
         self.peers = []
         for i in range(n_peers):
-            p = self.node.add_peer("aaa://" + PEER_HOSTS[i], REALM, ip_addresses=["10.0.1.%d" % (i + 1)] if with_ips else None,
+            p = self.node.add_peer("aaa://" + PEER_HOSTS[i], (peer_realms[i] if peer_realms else REALM), ip_addresses=["10.0.1.%d" % (i + 1)] if with_ips else None,
                                    is_persistent=persistent, is_default=(i in default_peers))
             self.peers.append(p)
         self.apps = []
